@@ -122,6 +122,21 @@ func (f *FieldCopyFromGenerator) errAttrConversionFailure(path string, typ strin
 
 // nextField reads current field value from Terraform object and asserts it's type against expected
 func (f *FieldCopyFromGenerator) nextField(g func(g *j.Group)) *j.Statement {
+	if f.ParentIsOptionalEmbed && f.Kind != PrimitiveKind && f.OneOfName == "" {
+		// Lists, maps and messages of a nullable embedded message are assigned through the parent:
+		// it is created when there is a value to store and left nil otherwise
+		parent := "obj." + f.ParentIsOptionalEmbedFieldName
+		body := g
+		g = func(gr *j.Group) {
+			gr.If(j.Id(parent).Op("!=").Nil().Op("||").Parens(j.Id("!v.Null && !v.Unknown"))).BlockFunc(func(gr *j.Group) {
+				gr.If(j.Id(parent).Op("==").Nil()).Block(
+					j.Id(parent).Op("=").Id("&" + f.ParentIsOptionalEmbedFullType + "{}"),
+				)
+				body(gr)
+			})
+		}
+	}
+
 	return j.Block(
 		// a, ok := ft.Attrs["key"]
 		j.List(j.Id("a"), j.Id("ok")).Op(":=").Id("tf.Attrs").Index(j.Lit(f.NameSnake)),
